@@ -329,7 +329,7 @@ class ConvReplay:
         info = dict(pre=pre, rust=code)
         pan = native_panicked(out)
         if claim_name == "no panic":
-            return (pan is not None and "pre_offset" in kv), "native: " + (pan or "no panic"), info
+            return (pan is not None and "pre_offset" in kv), "native: " + (pan or ("no panic" if "pre_offset" in kv else "the native driver did not run (compile error?): " + out[-300:].replace("\n", " "))), info
         if pan or "post_offset" not in kv:
             return False, "native run did not complete: " + (pan or out[-300:]), info
         # rebuild the observation from native values and evaluate the claims with concrete inputs and the platform libm
@@ -577,7 +577,7 @@ class PopReplay(AbsReaderReplay):
         info = dict(pre={k: (len(v) if isinstance(v, bytes) else v) for k, v in pre.items()}, rust=drv)
         pan = native_panicked(out)
         if claim_name == "no panic":
-            return (pan is not None and "pre_offset" in kv), "native: " + (pan or "no panic"), info
+            return (pan is not None and "pre_offset" in kv), "native: " + (pan or ("no panic" if "pre_offset" in kv else "the native driver did not run (compile error?): " + out[-300:].replace("\n", " "))), info
         if pan or "post_offset" not in kv or "new" not in kv:
             return False, "native run did not complete: " + (pan or out[-300:]), info
         if kv["new"] != "ok":
@@ -662,7 +662,7 @@ class TransformReplay:
         info = dict(pre=pre, rust=code)
         pan = native_panicked(out)
         if claim_name == "no panic":
-            return (pan is not None and "pre_offset" in kv), "native: " + (pan or "no panic"), info
+            return (pan is not None and "pre_offset" in kv), "native: " + (pan or ("no panic" if "pre_offset" in kv else "the native driver did not run (compile error?): " + out[-300:].replace("\n", " "))), info
         if pan or "post_offset" not in kv:
             return False, "native run did not complete: " + (pan or out[-300:]), info
         env = {n: z3.fpBVToFP(z3.BitVecVal(b, 64), F64) for n, b in v.items()}
